@@ -139,24 +139,28 @@ func Load(dir string, extraEnv []string, buildFlags []string) (*Prog, error) {
 	return P, nil
 }
 
-// inTestSupportFile: the function is declared in a file that imports "testing"
-// (x/*/keeper/test_common.go style scaffolding compiled into the package).
+// inTestSupportFile: the function is test scaffolding compiled into a non-test package: it is declared in a
+// file whose name contains "test" (x/*/keeper/test_common.go) or it (or its enclosing function) takes a
+// *testing.T / testing.TB parameter (types.IntEq, types.DecEq).
 func (P *Prog) inTestSupportFile(fn *ssa.Function) bool {
-	if P.testFiles == nil {
-		P.testFiles = map[string]bool{}
-		for _, p := range P.Pkgs {
-			for _, f := range p.Syntax {
-				for _, im := range f.Imports {
-					if im.Path.Value == `"testing"` {
-						P.testFiles[P.Fset.Position(f.Pos()).Filename] = true
-					}
-				}
+	top := fn
+	for top.Parent() != nil {
+		top = top.Parent()
+	}
+	if top.Signature != nil {
+		ps := top.Signature.Params()
+		for i := 0; i < ps.Len(); i++ {
+			ts := ps.At(i).Type().String()
+			if ts == "*testing.T" || ts == "testing.TB" || ts == "*testing.B" {
+				return true
 			}
 		}
 	}
-	for f := fn; f != nil; f = f.Parent() {
-		if f.Pos().IsValid() {
-			return P.testFiles[P.Fset.Position(f.Pos()).Filename]
+	if top.Pos().IsValid() {
+		name := P.Fset.Position(top.Pos()).Filename
+		base := name[strings.LastIndex(name, "/")+1:]
+		if strings.Contains(base, "test") {
+			return true
 		}
 	}
 	return false
